@@ -66,7 +66,7 @@ CheckTarget(e, unweighted) ==
                                   IN IF ds = {} THEN INF ELSE CHOOSE m \in ds : \A x \in ds : m <= x)
               ELSE NearestGoal(e.src, goals)
       cut == e.max_cost >= 0
-  IN IF e.status = "MAX_ITER" THEN ""
+  IN IF e.status = "MAX_ITER" THEN (IF e.max_iter >= 0 THEN "" ELSE "Return.max_iter_without_an_iteration_limit")
      ELSE IF e.status = "UNBOUNDED" THEN
           (IF e.solver # "bellman_ford" THEN "Return.unexpected_status" ELSE IF ~NegReach(e.src) THEN "Unbounded.no_negative_cycle_reachable" ELSE "")
      ELSE IF e.solver = "bellman_ford" /\ NegReach(e.src) THEN "BellmanFord.negative_cycle_not_reported"
